@@ -111,10 +111,21 @@ pub fn gen_stream(cx: &Cx) -> (Vec<u8>, Vec<&'static str>) {
             }
             _ => {
                 // a valid frame terminated by a bare LF (not a valid line)
+                // ... or by some other near-miss of CR LF (doubled CR, stray blank, NUL, leading blank)
                 let mut l = gen_frame(cx).to_bytes();
-                l.push(b'\n');
+                const ENDINGS: [&[u8]; 9] = [b"\n", b"\r\r\n", b"\r\r\r\n", b" \r\n", b"\r \n", b"\r\0\n", b"\t\r\n", b"\0\r\n", b"\r\n\r\n"];
+                let e = cx.draw(ENDINGS.len() as u64) as usize;
+                l.extend_from_slice(ENDINGS[e]);
+                if cx.chance(1, 8) {
+                    l.insert(0, *cx.pick(&[b' ', b'\r', b'\t', 0u8]));
+                }
                 out.extend(l);
-                kinds.push("lf-only");
+                if e == 0 {
+                    kinds.push("lf-only");
+                } else {
+                    cx.probe("frame_text_with_near_miss_line_ending");
+                    kinds.push("near-miss-line-ending");
+                }
             }
         }
         let _ = i;
